@@ -172,7 +172,7 @@ def run(ctx, rep):
                     rep.ok('P3', key, 'unreachable!() arm inside the RustEnum::Unit printer; RustEnum::Unit is only constructed after the all-variants-are-unit test (parse_enum)', site)
                     continue
             # table lookup
-            ent = lookup(table, s, used_entries)
+            ent = lookup(table, s, used_entries, prog)
             if ent is None:
                 rep.fail('P2', key, f"unclassified panic-capable construct `{s['snippet'][:100]}` ({s['kind']}, {s['callee'][:70]}) in {s['fn']}; reached via {path}", site)
             elif ent['class'] == 'guarded':
@@ -264,7 +264,7 @@ def abstract(snippet):
     return ''.join(out)
 
 
-def lookup(table, s, used=None):
+def lookup(table, s, used=None, prog=None):
     """Table entry for a site: same kind, file and (when given) enclosing function, same name-independent shape.
     An entry covers `count` sites (default 1) of its function; further look-alike sites are unclassified."""
     shape = abstract(s['snippet'])
@@ -277,13 +277,33 @@ def lookup(table, s, used=None):
         if e.get('file') and not s['file'].endswith(e['file']):
             continue
         if e.get('fn') and e['fn'] not in s['fn']:
-            continue
+            # the construct may have moved into a local helper of the function the entry names
+            if prog is None or s['fn'] not in helpers_of(prog, e['fn']):
+                continue
         if used is not None and e.get('fn'):
             if used.get(i, 0) >= e.get('count', 1):
                 continue
             used[i] = used.get(i, 0) + 1
         return e
     return None
+
+
+_helpers = {}
+
+
+def helpers_of(prog, fn):
+    """Readable ids of the functions reachable from `fn` through same-crate calls (its local helpers)."""
+    key = (id(prog), fn)
+    if key not in _helpers:
+        roots = [k for k, b in prog.bodies.items() if b['kind'] != 'closure' and (b['id'] == fn or b['id'].endswith('::' + fn) or b['id'].endswith(fn))]
+        ids = set()
+        for r in roots:
+            for k in prog.region([r]):
+                b = prog.bodies[k]
+                root = prog.bodies.get(b.get('root')) if b.get('root') else b
+                ids.add(root['id'])
+        _helpers[key] = ids
+    return _helpers[key]
 
 
 def discharge(ctx, prog, cr, ent, s, frames):
